@@ -358,6 +358,31 @@ func (ex *Exec) specCall(st *State, e *ast.CallExpr) []*Val {
 				}
 			}
 			return one(v)
+		case "oldmem":
+			// oldmem(e): e with the memory contents of function entry, but the
+			// current values of locals, parameters and ghosts
+			if st.old == nil {
+				return one(ex.expr(st, e.Args[0]))
+			}
+			ov := st.clone()
+			ov.heaps = map[string]*Term{}
+			for k, t := range st.old.heaps {
+				ov.heaps[k] = t
+			}
+			npc := len(ov.pc)
+			v := ex.expr(ov, e.Args[0])
+			for _, p := range ov.pc[npc:] {
+				st.assume(p)
+			}
+			for k, t := range ov.heaps {
+				if _, ok := st.heaps[k]; !ok {
+					st.heaps[k] = t
+				}
+				if _, ok := st.old.heaps[k]; !ok {
+					st.old.heaps[k] = t
+				}
+			}
+			return one(v)
 		case "len":
 			x := ex.expr(st, e.Args[0])
 			return one(ex.lenOf(st, x))
@@ -427,6 +452,51 @@ func (ex *Exec) specCall(st *State, e *ast.CallExpr) []*Val {
 			return one(&Val{T: tBool, Term: and(eq(ex.sLen(a.Term), ex.sLen(b.Term)),
 				forall([]*Term{k}, implies(and(ge(k, intLit(0)), lt(k, ex.sLen(a.Term))),
 					eq(ex.sliceElem(st, a.Term, k, tByte), ex.sliceElem(st, b.Term, k, tByte)))))})
+		case "forallCell":
+			// forallCell(s, p, c, body): for every cell of byte slice s, by absolute
+			// position in its array (trigger: a read of that array cell through any
+			// slice), with p the index within s and c the cell's value
+			sv := ex.expr(st, e.Args[0])
+			pn := e.Args[1].(*ast.Ident).Name
+			cn := e.Args[2].(*ast.Ident).Name
+			ex.nfresh++
+			a := mk(fmt.Sprintf("a?%d", ex.nfresh), SInt)
+			row := sel(ex.mem(st, tByte), ex.sRef(sv.Term))
+			savedB := map[string]*Val{}
+			savedN := map[string]types.Object{}
+			for _, nm := range []string{pn, cn} {
+				savedB[nm] = st.bound[nm]
+				if o, ok := st.names[nm]; ok {
+					savedN[nm] = o
+					delete(st.names, nm)
+				}
+			}
+			st.bound[pn] = &Val{T: tInt, Term: sub(a, ex.sOff(sv.Term))}
+			st.bound[cn] = &Val{T: tByte, Term: sel(row, a)}
+			npc := len(st.pc)
+			ex.quantDepth++
+			b := ex.materialize(ex.expr(st, e.Args[3]), tBool)
+			ex.quantDepth--
+			if len(st.pc) > npc {
+				for _, f := range st.pc[npc:] {
+					if mentionsAny(f, []*Term{a}) {
+						ex.specFail("forallCell body needs per-instance definitions")
+					}
+				}
+			}
+			for _, nm := range []string{pn, cn} {
+				if savedB[nm] != nil {
+					st.bound[nm] = savedB[nm]
+				} else {
+					delete(st.bound, nm)
+				}
+				if o, ok := savedN[nm]; ok {
+					st.names[nm] = o
+				}
+			}
+			return one(&Val{T: tBool, Term: forall([]*Term{a},
+				implies(and(ge(a, ex.sOff(sv.Term)), lt(a, add(ex.sOff(sv.Term), ex.sLen(sv.Term)))), b.Term),
+				[]*Term{sel(row, a)})})
 		case "unchanged":
 			// unchanged(s): every byte of s (by absolute position in its array,
 			// so that reads through any sub-slice match) has its entry value
@@ -534,6 +604,19 @@ func (ex *Exec) specCall(st *State, e *ast.CallExpr) []*Val {
 				st.assume(p)
 			}
 			return one(v)
+		case "ranged":
+			// ranged("1"): the value loop 1 ranges over (e.g. the pieces of a split)
+			path := strings.Trim(e.Args[0].(*ast.BasicLit).Value, "\"")
+			v := st.loopRanged[path]
+			if v == nil {
+				ex.specFail("ranged(%q): loop not entered on this path or not a slice range", path)
+			}
+			return one(v)
+		case "offsetIn":
+			// offsetIn(a, b): position of sub-slice a's first element within b
+			a := ex.expr(st, e.Args[0])
+			b := ex.expr(st, e.Args[1])
+			return one(&Val{T: tInt, Term: sub(ex.sOff(a.Term), ex.sOff(b.Term))})
 		case "mapStr":
 			// mapStr(m, "key"): element of a map[string]string (possibly boxed in an interface)
 			m := ex.expr(st, e.Args[0])
@@ -738,17 +821,22 @@ func (ex *Exec) quantifier(st *State, kind string, e *ast.CallExpr) *Val {
 	}
 	args := e.Args[1:]
 	var pats [][]*Term
-	if len(args) > 0 {
-		if c, ok := args[len(args)-1].(*ast.CallExpr); ok {
-			if id, ok := c.Fun.(*ast.Ident); ok && id.Name == "trig" {
-				var p []*Term
-				for _, a := range c.Args {
-					p = append(p, ex.materialize(ex.expr(st, a), nil).Term)
-				}
-				pats = append(pats, p)
-				args = args[:len(args)-1]
-			}
+	// trailing trig(...) arguments: alternative patterns (each may be a multi-pattern)
+	for len(args) > 0 {
+		c, ok := args[len(args)-1].(*ast.CallExpr)
+		if !ok {
+			break
 		}
+		id, ok := c.Fun.(*ast.Ident)
+		if !ok || id.Name != "trig" {
+			break
+		}
+		var p []*Term
+		for _, a := range c.Args {
+			p = append(p, ex.materialize(ex.expr(st, a), nil).Term)
+		}
+		pats = append(pats, p)
+		args = args[:len(args)-1]
 	}
 	n := len(st.pc)
 	var body *Term
